@@ -190,3 +190,42 @@ class PipeTransport(transports._FlowControlMixin, transports.Transport):
             self._closing = True
             self.closed_at = self._loop.time()
         self._loop.call_soon(self._call_connection_lost, None)
+
+
+class SlowPipeTransport(PipeTransport):
+    """a link with flow control: written bytes sit in a send buffer with high / low water marks (the protocol is paused and
+    resumed through asyncio's own _FlowControlMixin, exactly as a socket transport does) and leave it `quantum` bytes at a time
+    at `rate` bytes per virtual second into `delivered`.  A transfer therefore takes virtual time, so timers of the code under
+    test can fire while it is going on.  Bytes already accepted keep draining after close() (a socket transport flushes its
+    buffer before it reports connection_lost)."""
+
+    def __init__(self, loop, protocol, peername, rate, high=4096, low=1024, quantum=2048):
+        super().__init__(loop, protocol, peername)
+        self.rate = float(rate)
+        self.quantum = quantum
+        self.delivered = bytearray()
+        self._timer = None
+        self._set_write_buffer_limits(high, low)
+
+    def get_write_buffer_size(self):
+        return len(self.out)
+
+    def write(self, data):
+        was_closing = self._closing
+        super().write(data)
+        if not was_closing and data:
+            self._maybe_pause_protocol()
+            self._arm()
+
+    def _arm(self):
+        if self._timer is None and self.out:
+            n = min(self.quantum, len(self.out))
+            self._timer = self._loop.call_later(n / self.rate, self._drain, n)
+
+    def _drain(self, n):
+        self._timer = None
+        self.delivered += self.out[:n]
+        del self.out[:n]
+        if not self.lost:
+            self._maybe_resume_protocol()
+        self._arm()
